@@ -12,6 +12,7 @@ import Gecs.Model.Query
 import Gecs.Model.Macro
 import Gecs.Model.Check
 import Gecs.Model.Events
+import Gecs.Model.Borrow
 
 namespace Gecs.Driver
 open Gecs
@@ -623,11 +624,109 @@ def stepShort (d : DS) (op : List String) (implObs implSum : String) : String ×
     else ("no-events", d)
   | _ => ("bad-op", d)
 
+
+/-! ### C11: nested runtime-borrowed accesses -/
+
+/-- Parsed access tree, before the world-dependent facts are resolved. -/
+inductive PNode where
+  | bs (a col : Nat) (m : Bool) (kids : List PNode)
+  | bc (a : Nat) (var : String) (col : Nat) (m : Bool) (kids : List PNode)
+  | fb (q : String) (var : String) (kids : List PNode)
+  | ib (q : String) (kids : List PNode)
+  | cl
+
+/-- Recursive-descent parser over the token list (`fuel` bounds the recursion). -/
+def parseNodes : Nat → List String → Option (List PNode × List String)
+  | 0, _ => none
+  | fuel + 1, toks =>
+    match toks with
+    | "(" :: kind :: rest =>
+      let args := rest.takeWhile (fun t => t != "(" && t != ")")
+      let rest' := rest.dropWhile (fun t => t != "(" && t != ")")
+      match parseNodes fuel rest' with
+      | none => none
+      | some (kids, rest'') =>
+        match rest'' with
+        | ")" :: rest3 =>
+          let node : Option PNode :=
+            match kind, args with
+            | "bs", [a, c, m] => some (.bs (natOf a) (natOf c) (m == "m") kids)
+            | "bc", [a, v, c, m] => some (.bc (natOf a) v (natOf c) (m == "m") kids)
+            | "fb", [q, v] => some (.fb q v kids)
+            | "ib", [q] => some (.ib q kids)
+            | "cl", [] => some .cl
+            | _, _ => none
+          match node, parseNodes fuel rest3 with
+          | some n, some (more, rest4) => some (n :: more, rest4)
+          | _, _ => none
+        | _ => none
+    | _ => some ([], toks)
+
+def guardsOf (a : Nat) (ps : List Param) : List (Borrow.CellId × Bool) :=
+  ps.filterMap (fun p => match p with | .comp c m => some ((a, c), m) | _ => none)
+
+mutual
+def resolveNode (d : DS) (w : World Val) : PNode → Borrow.Node
+  | .bs a col m kids => .bs a col m (resolveNodes d w kids)
+  | .bc a var col m kids =>
+    let found : Bool :=
+      match d.getH var with
+      | some h =>
+        if h.kind.isDirect then false else
+        (match w.contains d.cfg (routeArch d.ids a ⟨.any, a, h.key⟩) false with
+         | .ok (some _) _ => true
+         | _ => false)
+      | none => false
+    .bc a col m found (resolveNodes d w kids)
+  | .fb qn var kids =>
+    let gs : Option (List (Borrow.CellId × Bool)) :=
+      match d.getH var, d.queries.find? (·.1 == qn) with
+      | some h, some (_, q) =>
+        if h.kind.isDirect then none else
+        (match routeWorld d.cfg d.ids ⟨.any, h.a, h.key⟩ with
+         | .arch a k =>
+           (match q.find? (fun qa => qa.a == a), w.archs[a]? with
+            | some qa, some s =>
+              (match storageResolve d.cfg s false k with
+               | .ok (some _) _ => some (guardsOf a qa.params)
+               | _ => none)
+            | _, _ => none)
+         | _ => none)
+      | _, _ => none
+    .fb gs (resolveNodes d w kids)
+  | .ib qn kids =>
+    let calls : List (List (Borrow.CellId × Bool)) :=
+      match d.queries.find? (·.1 == qn) with
+      | some (_, q) => q.flatMap (fun qa =>
+          List.replicate ((w.archs.getD qa.a (emptyStorage 0)).len) (guardsOf qa.a qa.params))
+      | none => []
+    .ib calls (resolveNodes d w kids)
+  | .cl => .cl (((List.range w.archs.length).zip w.archs).map (fun (a, s) => (List.range s.cols.length).map (fun c => (a, c))))
+def resolveNodes (d : DS) (w : World Val) : List PNode → List Borrow.Node
+  | [] => []
+  | n :: rest => resolveNode d w n :: resolveNodes d w rest
+end
+
+def nestOp (d : DS) (toks : List String) : String :=
+  match d.world with
+  | none => "no-world"
+  | some w =>
+    match parseNodes (toks.length + 1) toks with
+    | some (pn, []) =>
+      let r := Borrow.run (resolveNodes d w pn)
+      let endS := match r.panic with
+        | none => "ok"
+        | some .borrowError => "panic:BorrowError"
+        | some .borrowMutError => "panic:BorrowMutError"
+      s!"[{joinWith " " r.trace}] end={endS} sweep={if r.cells.idle then "ok" else "BAD"}"
+    | _ => "bad-op"
+
 def dispatchOp (d : DS) (op : List String) (implObs implSum : String) : String × DS :=
   match op with
   | c :: _ =>
     if ["new", "create", "createw", "todirect", "destroy", "write", "find", "findb", "forge", "preset"].contains c
     then step d op implObs implSum
+    else if c == "nest" then (nestOp d (op.drop 1), d)
     else if op == ["clone"] then stepShort d ["clone", "-"] implObs implSum
     else stepShort d op implObs implSum
   | [] => ("bad-op", d)
